@@ -27,22 +27,6 @@ structure KState (jo : JobObj) (kt : Time) (F0 : Int) (s : Sys) : Prop where
   lbPods : ∀ p ∈ s.pods, ∀ f, p.pod.finishTimestamp = some (some f) → F0 ≤ f
   ttl : s.clock < F0 + getTTLAfterFinished jo.job s.cfg
 
-theorem podTask_finish {p : PodObj} {t : Task} (h : podTask p = some t) :
-    p.pod.finishTimestamp = some t.ref.finishTimestamp := by
-  unfold podTask Pod.task at h
-  cases hr : p.pod.taskRef with
-  | none => simp [hr] at h
-  | some r =>
-    simp only [hr, Option.some.injEq] at h
-    subst h
-    unfold Pod.taskRef at hr
-    cases hf : p.pod.finishTimestamp with
-    | none => simp [hf] at hr
-    | some fin =>
-      simp only [hf, Option.some.injEq] at hr
-      subst hr
-      rfl
-
 theorem markDts_fields (c : Time) (N : List String) (p : PodObj) :
     (markDts c N p).ownerUid = p.ownerUid ∧ (markDts c N p).ownerName = p.ownerName ∧
     (markDts c N p).jobLabel = p.jobLabel ∧ (markDts c N p).pod.name = p.pod.name ∧
@@ -94,9 +78,8 @@ theorem work_kill {jo : JobObj} {kt : Time} {F0 : Int} {s : Sys} (h : KState jo 
   have hTlb : ∀ t ∈ killTasks sp jo, ∀ f, t.ref.finishTimestamp = some f → F0 ≤ f := by
     intro t ht f hf
     obtain ⟨p, hp, hpt, _⟩ := killTasks_facts hsp_cache hsp_pods ht
-    have := podTask_finish hpt
-    rw [hf] at this
-    exact h.lbPods p (by rw [← e_pods]; exact hp) f this
+    exact podTask_finish_lb hpt (Int.le_trans h.lbKill (by rw [e_clock]; exact h.passed))
+      (h.lbPods p (by rw [← e_pods]; exact hp)) f hf
   have hle : kt ≤ sp.clock := by rw [e_clock]; exact h.passed
   have hgenlb : ∀ r ∈ generateTaskRefs sp.clock jo.job.status.tasks (killTasks sp jo), ∀ f,
       r.finishTimestamp = some f → F0 ≤ f :=
